@@ -142,6 +142,10 @@ def make_input(call, ci, sh):
     n = call["n"]
     size = call.get("result_size", 0)
     items = [(ci, i, item_duration(call, i)) + ((size,) if size else ()) for i in range(n)]
+    if call.get("item_size") and not (call.get("twins") or call.get("exc_results")):
+        # data items larger than a pipe buffer (64 KiB): a put is not visible to the other side at once
+        pad = "p" * call["item_size"]
+        items = [(x[0], x[1], x[2], size, "", pad) for x in items]
     if call.get("twins") or call.get("exc_results"):
         # twins: every item is followed by an equal-but-different one (index as float: == and same hash, other type) and f
         # reports the type it saw; exc_results: f RETURNS (does not raise) an exception object for every fifth item
@@ -621,7 +625,7 @@ def _simple_functor(sh):
             if "E" in flags and int(idx) % 5 == 0 and not isinstance(idx, float):
                 return ValueError(f"e{call}:{idx}")           # returned, not raised
             return (call, idx, type(idx).__name__)
-        return (call, idx, "r" * x[3]) if len(x) > 3 else (call, idx)     # large results fill the result pipe
+        return (call, idx, "r" * x[3]) if len(x) > 3 and x[3] else (call, idx)     # large results fill the result pipe
     return f
 
 
